@@ -45,9 +45,11 @@ d(AGG + "AggregateExecutionEngine::update_aggregate|api:unwrap|core::option::Opt
   "column_value is Some whenever a column is named, and DISTINCT without a column returned an error above")
 d(AGG + "AggregateExecutionEngine::update_aggregate|overflow|Add i64,i64 [_,c1]", 1,
   "COUNT is incremented once per row: cannot reach 2^63")
-d(AGG + "GroupAggregator::default|api:panic|core::panicking::panic", 6,
-  "unimplemented!() arms for aggregates that never use an aggregator: default() is called only from the COUNT(DISTINCT) and "
-  "SUM/AVG/STDDEV/PERCENTILE/BOOL_AND/BOOL_OR arms of update_aggregate")
+# (GroupAggregator::default|api:panic: the unimplemented!() arms are discharged mechanically - `excluded variant`: every call of default()
+#  sits in an arm of update_aggregate's match over the same aggregate for other variants)
+d(AGG + "GroupAggregator::default|api:panic|core::panicking::panic", 1,
+  "the `Count(_, false)` arm: for COUNT, default() is called only under `if distinct` in update_aggregate (the other unimplemented!() arms "
+  "are discharged mechanically by variant exclusion)")
 d(AGG + "GroupAggregator::update_value|api:sort|alloc::slice::<impl [T]>::sort", 1,
   "Vec<Value>::sort needs a total order: decided by C16 (Float's four impls share one total_cmp key; all other impls are derived)")
 d(AGG + "GroupAggregator::update_value|cast|f64->usize", 1,
